@@ -155,3 +155,35 @@ m('c14-from-f64-bypasses-classifier', ['C14'], 'R-NOCALL', [
         BigDecimal::try_from(n).ok()""", """    fn from_f64(n: f64) -> Option<Self> {
         Some(crate::parsing::parse_from_f64(n))""")],
   'FromPrimitive::from_f64 converts NaN')
+# ---- C15
+m('c15-negative-to-unsigned', ['C15'], 'to_u64:sign=Minus', [
+  ('src/impl_num.rs', """    fn to_u64(&self) -> Option<u64> {
+        match self.sign() {
+            Sign::Plus if self.scale == 0 => self.digits.to_u64(),
+            Sign::Plus => self.to_owned_with_scale(0).int_val.to_u64(),
+            Sign::NoSign => Some(0),
+            Sign::Minus => None,""", """    fn to_u64(&self) -> Option<u64> {
+        match self.sign() {
+            Sign::Plus | Sign::Minus if self.scale == 0 => self.digits.to_u64(),
+            Sign::Plus => self.to_owned_with_scale(0).int_val.to_u64(),
+            Sign::NoSign => Some(0),
+            Sign::Minus => None,""")],
+  '-5 (scale 0) converts to 5u64')
+m('c15-owned-forwards-wrong-method', ['C15'], 'ToPrimitive for BigDecimal>::to_u128:forwards', [
+  ('src/impl_num.rs', """    fn to_u128(&self) -> Option<u128> {
+        self.to_ref().to_u128()""", """    fn to_u128(&self) -> Option<u128> {
+        self.to_ref().to_u64().map(u128::from)""")],
+  'owned to_u128 silently limited to u64 range')
+m('c15-from-ref-int-wrong-scale', ['C15'], 'From<&i16> for BigDecimal>::from:projection', [
+  ('src/impl_convert.rs', """                BigDecimal {
+                    int_val: (*n).into(),
+                    scale: 0,""", """                BigDecimal {
+                    int_val: (*n).into(),
+                    scale: 1,""")],
+  'From<&int> divides by ten')
+m('c15-to-bigint-rounds', ['C15'], 'to_bigint:projection', [
+  ('src/impl_num.rs', "Some(self.with_scale(0).int_val)", "Some(self.with_scale_round(0, crate::RoundingMode::HalfUp).int_val)")],
+  'to_bigint rounds instead of truncating')
+m('c15-truncation-floors', ['C15'], 'R-NOCALL', [
+  ('src/lib.rs', "                    self.digits / ten_to_the_uint(scale_diff)\n                }\n            }\n        };\n\n        BigDecimal {\n            scale: scale,\n            int_val: BigInt::from_biguint(self.sign, digits),", "                    num_integer::Integer::div_floor(&BigInt::from_biguint(self.sign, self.digits.clone()), &BigInt::from(ten_to_the_uint(scale_diff))).magnitude().clone()\n                }\n            }\n        };\n\n        BigDecimal {\n            scale: scale,\n            int_val: BigInt::from_biguint(self.sign, digits),")],
+  'negative values floor for scale gaps >= 20')
